@@ -95,6 +95,12 @@ def cases(tier, seed):
     for i in range(len(STRINGS)):
         for place in ('msg', 'subp', 'name'):
             yield ['str', i, place]
+    # suite names longer than a file name can be (255 bytes), several of them
+    # with the same head / the same tail (each suite still needs a report of
+    # its own)
+    for place in ('cls', 'dname', 'dfile'):
+        for n in (120, 236, 250, 300, 1000):
+            yield ['long', place, n]
     for k in KINDS:
         for rep in (1, 2):
             yield ['kind', k, rep]
@@ -304,7 +310,7 @@ def structure_viol(spec, res, files, rep, why):
             if got != n or tot != n:
                 out.append(('doctest_testcase', '%s: doctest %s (%s) ran %d times; %d testcases of kind %s, %d in all; testcases: %s' % (why, tid, t['dt'], n, got, wantk, tot, sorted(cases_seen))))
             continue
-        cls = 'vtw.tests.T_%s' % tid
+        cls = 'vtw.tests.' + (t.get('cls') or 'T_%s' % tid)
         mname = 'test_' + t.get('mn', tid)
         if ILLEGAL.search(mname):
             # XML 1.0 cannot carry this name verbatim: any escaped spelling
@@ -475,6 +481,25 @@ def run_case(case):
             vs0 = [('import_errors_not_reported_separately', '%s: report files %s' % (why, sorted(files)))]
         else:
             vs0 = []
+    elif kind == 'long':
+        rep = 1
+        T = ('x' if a != 'cls' else 'X') * b
+        if a == 'cls':
+            tests = [{'n': 'q0', 'cls': 'N' + T, 'l': None, 's': 'fail'}, {'n': 'q1', 'cls': 'P' + T, 'l': None, 's': 'pass'},
+                     {'n': 'q2', 'cls': T + 'N', 'l': None, 's': 'error'}, {'n': 'q3', 'cls': T + 'P', 'l': None, 's': 'pass'}]
+        elif a == 'dname':
+            tests = [{'n': 'q0', 'dt': 'string', 'dname': 'pk.n' + T + '.f', 'l': None, 's': 'fail'},
+                     {'n': 'q1', 'dt': 'string', 'dname': 'pk.p' + T + '.f', 'l': None, 's': 'pass'},
+                     {'n': 'q2', 'dt': 'string', 'dname': 'pk.' + T + 'n.f', 'l': None, 's': 'fail'},
+                     {'n': 'q3', 'dt': 'string', 'dname': 'pk.' + T + 'p.f', 'l': None, 's': 'pass'}]
+        else:
+            tests = [{'n': 'q0', 'dt': 'file', 'dfile': '/vtw/n' + T + '/a0.txt', 'l': None, 's': 'fail'},
+                     {'n': 'q1', 'dt': 'file', 'dfile': '/vtw/p' + T + '/a1.txt', 'l': None, 's': 'pass'},
+                     {'n': 'q2', 'dt': 'file', 'dfile': '/vtw/' + T + 'n/a2.txt', 'l': None, 's': 'fail'},
+                     {'n': 'q3', 'dt': 'file', 'dfile': '/vtw/' + T + 'p/a3.txt', 'l': None, 's': 'pass'}]
+        spec = {'layers': [], 'tests': tests}
+        why = '%d-character %s (four suites, same head / same tail)' % (b, {'cls': 'class names', 'dname': 'doctest names', 'dfile': 'doctest file paths'}[a])
+        res, files = run_xml(spec)
     elif kind == 'kind':
         rep = b
         spec = {'layers': [{'n': 'A', 'b': [], 'k': 'c', 'h': ['setUp', 'tearDown']}],
@@ -487,7 +512,7 @@ def run_case(case):
         spec = {'layers': [], 'tests': [{'n': 'q0', 'l': None, 's': 'pass'}], 'bad_modules': ['vtw.broken']}
         why = 'import error'
         res, files = run_xml(spec)
-    sig = {'part': kind, 'what': (str(a)[:40] if kind in ('kind', 'dkind', 'modes', 'buffered') else (b if kind == 'str' else ''))}
+    sig = {'part': kind, 'what': (str(a)[:40] if kind in ('kind', 'dkind', 'modes', 'buffered', 'long') else (b if kind == 'str' else ''))}
     vs = check_files(res, files, why)
     if kind in ('modes', 'two_classes_subtests'):
         vs += vs0
